@@ -680,7 +680,7 @@ def check_C19(tier, seed, replay):
 def tools_bin(name):
     """build harness/tools against /repo's current tree -> path of the binary"""
     import subprocess
-    cd = os.path.join(vlib.VERIF, "harness", "tools")
+    cd = vlib.harness_crate("tools")
     p_ = subprocess.run(["cargo", "build", "--offline", "--bin", name], cwd=cd, env=vlib.cargo_env(),
                         stdout=subprocess.PIPE, stderr=subprocess.PIPE, text=True)
     if p_.returncode != 0:
@@ -1787,6 +1787,7 @@ def check_C17(tier, seed, replay):
         tdir = os.path.join(scratch, "verif_tools")
         shutil.copytree(os.path.join(vlib.VERIF, "harness", "tools"), tdir)
         ct = open(os.path.join(tdir, "Cargo.toml")).read().replace("/repo/", scratch + "/")
+        ct = ct.replace('name = "verif_tools"', 'name = "verif_tools_boot"')
         open(os.path.join(tdir, "Cargo.toml"), "w").write(ct)
         p_ = subprocess.run(["cargo", "build", "--offline", "--bin", "front"], cwd=tdir, env=e, stdout=subprocess.PIPE, stderr=subprocess.PIPE, text=True)
         if p_.returncode != 0:
